@@ -259,6 +259,10 @@ fn roles_of(name: &str) -> Option<Roles> {
         }
         "DefaultNull" => roles!(DefaultNull),
         "Flat" => roles!(-, -, Flat, -),
+        "Flat2" => roles!(-, -, Flat2, -),
+        "OrderedAM" => roles!(OrderedAMUdt, OrderedAMUdt, -, -),
+        "NameAM" => roles!(NameAMUdt, NameAMUdt, -, -),
+        "OrderedRenamedSkip" => roles!(OrderedRenamedSkip),
         _ => return None,
     })
 }
@@ -277,6 +281,10 @@ pub const STRUCT_NAMES: &[&str] = &[
     "AllowMissing",
     "DefaultNull",
     "Flat",
+    "Flat2",
+    "OrderedAM",
+    "NameAM",
+    "OrderedRenamedSkip",
 ];
 
 fn not_available(st: &mut Stats, s: &str, what: &str) -> Value {
